@@ -96,6 +96,11 @@ def generate(rng, tier, index):
         sc["unk"] = rng.choice([None, "<unk>", 99])
         sc["skip"] = rng.random() < 0.25
         sc["use_map"] = rng.random() < 0.8
+        sc["big_ids"] = rng.random() < 0.15  # ids that a float32 cannot hold exactly
+        if rng.random() < 0.08:
+            # sample-level frames late in a long recording: frame indices above 2**25
+            sc["fs"] = 1000.0 / 16000
+            sc["toks"] = [[a, (b + 2_500_000 if b is not None else None), (c + 2_500_000 if c is not None else None)] for a, b, c in sc["toks"]]
     return sc
 
 
@@ -335,11 +340,15 @@ def run_tg(sc, s, res, data):
 def run_token(sc, s, res, data):
     fs = sc["fs"]
     t2i = dict(P.TOK2ID) if sc["use_map"] else None
+    if t2i is not None and sc.get("big_ids"):
+        t2i = {k: (16777217 + 2 * v if v % 2 else 4000000001 + v) for k, v in t2i.items()}
     i2t = {v: k for k, v in t2i.items()} if t2i else None
     transcript = []
     for tok, a, b in sc["toks"]:
         if not sc["use_map"]:
             tok = P.TOK2ID.get(tok, 99)  # ids directly
+            if sc.get("big_ids"):
+                tok = 16777217 + 2 * tok
         if a is None:
             transcript.append(tok)
         elif fs:
